@@ -97,4 +97,27 @@ theorem gather_block (t k : Nat) (pre suf : List (Nat × Nat × List Nat)) (n : 
   · simp only [List.length_append, hv, ← hcount, Nat.add_mul]
     omega
 
+/-- **cells per type, block form**: blocks of pairwise distinct types, `k` corners per row of type `t` -/
+theorem cornersOf_blocks (t k : Nat) (pre suf : List (Nat × List (List Nat))) (rows : List (List Nat))
+    (hpre : ∀ b ∈ pre, b.1 ≠ t) (hsuf : ∀ b ∈ suf, b.1 ≠ t)
+    (hk : ∀ r ∈ rows, r.length = k) (hne : rows ≠ []) :
+    let all := (pre ++ (t, rows) :: suf).flatMap fun b => b.2.map fun r => (b.1, r)
+    cornersOf (all.flatMap (·.2)) (runningSums 0 (all.map (·.2.length))) (all.map (·.1)) t = some rows := by
+  intro all
+  have hfilter := blockRows_filter t pre suf rows hpre hsuf
+  have hk' : ∀ c ∈ all, c.1 = t → c.2.length = k := by
+    intro c hc hct
+    have : c.2 ∈ (all.filter (·.1 == t)).map (·.2) :=
+      List.mem_map.mpr ⟨c, List.mem_filter.mpr ⟨hc, by simp [hct]⟩, rfl⟩
+    rw [hfilter] at this
+    exact hk _ this
+  have hex : ∃ c ∈ all, c.1 = t := by
+    cases rows with
+    | nil => exact absurd rfl hne
+    | cons r rs =>
+      refine ⟨(t, r), ?_, rfl⟩
+      apply List.mem_flatMap.mpr
+      exact ⟨(t, r :: rs), by simp, by simp⟩
+  rw [cornersOf_written t k all hk' hex, hfilter]
+
 end Fc.W
